@@ -15,6 +15,12 @@ def main():
         sched = procs.SCHEDULES[si]
         obs.append(procs.scenario(method, tuple(how), sched))
     obs.append(procs.start_in_child())
+    # a parent that is itself a child of another start method
+    obs.append(procs.nested('forkserver', 'fork', ('exit', 3), 2))
+    obs.append(procs.nested('spawn', 'fork', ('signal', 9), 3))
+    if tier == 'thorough':
+        obs.append(procs.nested('fork', 'spawn', ('exit', 0), 1))
+        obs.append(procs.nested('forkserver', 'forkserver', ('return',), 0))
     with open(out + '.tmp', 'w') as fh:
         json.dump(obs, fh)
     os.replace(out + '.tmp', out)
